@@ -283,6 +283,10 @@ class BehavioralRTLIRTypeCheckVisitorL2( BehavioralRTLIRTypeCheckVisitorL1 ):
         s.enforcer.enter( s.blk, context, op )
 
     node.Type = node.body.Type
+    # The result of a conditional expression is a value, not a signal that
+    # can be indexed, sliced or have fields selected
+    if not isinstance( node.Type, ( rt.Const, rt.NetWire ) ):
+      node.Type = rt.NetWire( node.Type.get_dtype() )
     node._is_explicit = node.body._is_explicit or node.orelse._is_explicit
 
   def visit_UnaryOp( s, node ):
